@@ -136,3 +136,86 @@ def install_getters(R):
     R.contract(M, 'ServiceRegistry.async_get_infos_server', P, params={'server': 'str'}, returns='list[ServiceInfo]',
                requires=['wf_reg(self)'],
                ensures=[e.format(q='server') for e in by_index('servers', 'X.server_key')])
+
+
+# ---- concrete harness --------------------------------------------------------------------------------------
+TYPES = ['_x._tcp.local.', '_X._tcp.local.', '_y._udp.local.']
+HOSTS = ['host.local.', 'HOST.local.', 'h2.local.']
+
+
+def mk_info(g, used):
+    from zeroconf import ServiceInfo
+    for _ in range(20):
+        ty = g.rng.choice(TYPES)
+        inst = g.rng.choice(['a', 'A', 'b', 'c'])
+        name = '%s.%s' % (inst, ty)
+        if name.lower() in used:
+            continue
+        used.add(name.lower())
+        addrs = g.rng.choice([[b'\x01\x02\x03\x04'], [b'\x00' * 15 + b'\x01'], [b'\x01\x02\x03\x04', b'\x00' * 15 + b'\x01'], []])
+        return ServiceInfo(ty, name, 80, 0, 0, {'k': 'v'}, g.rng.choice(HOSTS), host_ttl=g.rng.choice([120, 60]),
+                           other_ttl=g.rng.choice([4500, 100]), addresses=addrs)
+    return None
+
+
+def mk_registry(g):
+    from zeroconf._services.registry import ServiceRegistry
+    r = ServiceRegistry()
+    used = set()
+    for _ in range(g.rng.randint(0, 4)):
+        i = mk_info(g, used)
+        if i is not None:
+            r.async_add(i)
+    return r
+
+
+def _gen_info_arg(g, registered_bias=0.6):
+    r = mk_registry(g)
+    infos = list(r._services.values())
+    if infos and g.rng.random() < registered_bias:
+        return r, g.rng.choice(infos)
+    return r, mk_info(g, set())
+
+
+def install_generators(R):
+    G = R.generators
+
+    def g_add(g):
+        r, i = _gen_info_arg(g, 0.3)
+        return {'self': r, 'info': i}
+
+    def g_remove(g):
+        r = mk_registry(g)
+        infos = list(r._services.values())
+        pick = [x for x in infos if g.rng.random() < 0.5]
+        if g.rng.random() < 0.3:
+            extra = mk_info(g, set())
+            if extra is not None:
+                pick.append(extra)
+        return {'self': r, 'infos': pick}
+
+    def g_index(g):
+        r = mk_registry(g)
+        idx = r.types if g.rng.random() < 0.5 else r.servers
+        keys = list(idx)
+        if keys and g.rng.random() < 0.8:
+            k = g.rng.choice(keys)
+            nm = g.rng.choice(idx[k]) if g.rng.random() < 0.8 else 'zz'
+        else:
+            k, nm = 'nokey', 'zz'
+        return {'index': idx, 'index_key': k, 'name': nm}
+    G[(M, 'ServiceRegistry._add')] = g_add
+    G[(M, 'ServiceRegistry._remove')] = g_remove
+    G[(M, 'ServiceRegistry._remove_from_index')] = g_index
+    G[(M, 'ServiceRegistry.async_update')] = lambda g: dict(zip(('self', 'info'), _gen_info_arg(g, 0.7)))
+    G[(M, 'ServiceRegistry.async_remove')] = lambda g: dict(zip(('self', 'info'), _gen_info_arg(g, 0.7)))
+    G[(M, 'ServiceRegistry.async_get_info_name')] = lambda g: {'self': mk_registry(g), 'name': g.rng.choice(['a._x._tcp.local.', 'A._x._tcp.local.', 'b._y._udp.local.'])}
+    G[(M, 'ServiceRegistry.async_get_types')] = lambda g: {'self': mk_registry(g)}
+    G[(M, 'ServiceRegistry.async_get_infos_type')] = lambda g: {'self': mk_registry(g), 'type_': g.rng.choice([t.lower() for t in TYPES] + TYPES)}
+    G[(M, 'ServiceRegistry.async_get_infos_server')] = lambda g: {'self': mk_registry(g), 'server': g.rng.choice([h.lower() for h in HOSTS] + HOSTS)}
+
+    def g_by_index(g):
+        r = mk_registry(g)
+        idx = r.types if g.rng.random() < 0.5 else r.servers
+        return {'self': r, 'records': idx, 'key': g.rng.choice(list(idx) + ['nokey'])}
+    G[(M, 'ServiceRegistry._async_get_by_index')] = g_by_index
